@@ -2,6 +2,7 @@ package rules
 
 import (
 	"fmt"
+	"go/token"
 	"strings"
 
 	"golang.org/x/tools/go/ssa"
@@ -102,10 +103,14 @@ func evalAtom(s *an.PathState, a an.Atom) (known, val bool) {
 // the calls common to all closure paths that are not refuted by the creator's facts.
 // deferredBody: the function a deferred call runs and what its free variables / parameters stand for: a closure
 // (captured variables bound where it was created) or a module function called with arguments evaluated at the defer.
-func deferredBody(s *an.PathState, ev an.Event) (*ssa.Function, map[string]*an.Term, bool) {
+//
+// The third result is the memory the body's loads are resolved in: the creator's memory when the deferred calls run
+// (ev.AtExit), extended — for a closure handed out by a module function, see returnedClosure — by the cells of that
+// function's frame the closure captured.
+func deferredBody(s *an.PathState, ev an.Event) (*ssa.Function, map[string]*an.Term, map[string]*an.Term, bool) {
 	ci, ok := ev.In.(ssa.CallInstruction)
 	if !ok {
-		return nil, nil, false
+		return nil, nil, nil, false
 	}
 	fv := map[string]*an.Term{}
 	if mc, ok := ci.Common().Value.(*ssa.MakeClosure); ok {
@@ -113,7 +118,7 @@ func deferredBody(s *an.PathState, ev an.Event) (*ssa.Function, map[string]*an.T
 		for i, b := range mc.Bindings {
 			fv[cf.FreeVars[i].Name()] = s.T(b)
 		}
-		return cf, fv, true
+		return cf, fv, ev.AtExit, true
 	}
 	if g := ci.Common().StaticCallee(); g != nil && an.CurProg() != nil && an.CurProg().InRepo(g) && len(g.Blocks) > 0 && g.Signature.Recv() == nil {
 		for i, prm := range g.Params {
@@ -121,17 +126,208 @@ func deferredBody(s *an.PathState, ev an.Event) (*ssa.Function, map[string]*an.T
 				fv["p:"+prm.Name()] = ev.Args[i]
 			}
 		}
-		return g, fv, true
+		return g, fv, ev.AtExit, true
 	}
-	return nil, nil, false
+	if cf, fv, cells, ok := returnedClosure(s, ci); ok {
+		snap := make(map[string]*an.Term, len(ev.AtExit)+len(cells))
+		for k, v := range ev.AtExit {
+			snap[k] = v
+		}
+		for k, v := range cells {
+			snap[k] = v
+		}
+		return cf, fv, snap, true
+	}
+	return nil, nil, nil, false
+}
+
+// retClosure is what a module function hands out at one function-typed result position (see returnedClosure).
+type retClosure struct {
+	fn    *ssa.Function
+	cells []retCell
+}
+
+// retCell: the value a captured cell of the callee's frame holds when the callee returns: the callee's own result
+// number res (>= 0), or the callee's term val.
+type retCell struct {
+	res int
+	val *an.Term
+}
+
+type retClosureKey struct {
+	g   *ssa.Function
+	idx int
+}
+
+var retClosureMemo = map[retClosureKey]*retClosure{}
+
+// returnedClosure resolves the function value called at ci when it is a result of a static call to a module function
+// g ("tmp, discard, err := getTempFile(); defer discard()"): every return of g hands out, at that position, nil or the
+// closure made at ONE MakeClosure site of g. Each captured variable must be a cell of g's own frame that g only stores
+// to and loads from and that the closure only loads — then nobody can change it after g has returned, and the closure
+// sees the value the cell held at g's return: one of g's other results (the caller's own term for that result), or
+// g's term with g's parameters bound to the call's arguments. All returns must agree. Anything else: not resolved
+// (the call stays an opaque dynamic call, which no rule accepts as a cleanup).
+func returnedClosure(s *an.PathState, ci ssa.CallInstruction) (*ssa.Function, map[string]*an.Term, map[string]*an.Term, bool) {
+	v := ci.Common().Value
+	idx := 0
+	if ex, isEx := v.(*ssa.Extract); isEx {
+		idx, v = ex.Index, ex.Tuple
+	}
+	call, isCall := v.(*ssa.Call)
+	if !isCall || call.Common().IsInvoke() {
+		return nil, nil, nil, false
+	}
+	g := call.Common().StaticCallee()
+	if g == nil || an.CurProg() == nil || !an.CurProg().InRepo(g) || len(g.Blocks) == 0 {
+		return nil, nil, nil, false
+	}
+	ct := s.T(call)
+	if ct == nil || ct.Op != "call" {
+		return nil, nil, nil, false
+	}
+	key := retClosureKey{g, idx}
+	rc, done := retClosureMemo[key]
+	if !done {
+		rc = summariseReturnedClosure(g, idx)
+		retClosureMemo[key] = rc
+	}
+	if rc == nil {
+		return nil, nil, nil, false
+	}
+	pm := an.ParamMap(g, ct.Args)
+	fv := map[string]*an.Term{}
+	cells := map[string]*an.Term{}
+	for i, cell := range rc.cells {
+		name := rc.fn.FreeVars[i].Name()
+		addr := &an.Term{K: "&cell⟦" + ct.K + "⟧." + name, Op: "foreign", Aux: name}
+		var val *an.Term
+		if cell.res >= 0 {
+			if refs := call.Referrers(); refs != nil {
+				for _, r := range *refs {
+					if ex, ok := r.(*ssa.Extract); ok && ex.Index == cell.res {
+						val = s.T(ex)
+					}
+				}
+			}
+			if val == nil {
+				val = &an.Term{K: fmt.Sprintf("%s#%d", ct.K, cell.res), Op: "extract", Aux: fmt.Sprint(cell.res), Args: []*an.Term{ct}}
+			}
+		} else {
+			val = an.Subst(cell.val, pm, an.FnName(g))
+		}
+		fv[name] = addr
+		cells[addr.K] = val
+	}
+	return rc.fn, fv, cells, true
+}
+
+func summariseReturnedClosure(g *ssa.Function, idx int) *retClosure {
+	var mc *ssa.MakeClosure
+	var cells []retCell
+	bad := false
+	res := an.EnumPaths(g, nil, nil, func(cs *an.PathState) {
+		if bad || len(cs.Events) == 0 {
+			return
+		}
+		ev := cs.Events[len(cs.Events)-1]
+		if ev.Kind != "return" {
+			return
+		}
+		if idx >= len(ev.Args) || ev.Args[idx] == nil {
+			bad = true
+			return
+		}
+		r := ev.Args[idx]
+		if r.IsConst("nil") {
+			return
+		}
+		m, isMC := r.V.(*ssa.MakeClosure)
+		if r.Op != "closure" || !isMC || m.Parent() != g || (mc != nil && mc != m) {
+			bad = true
+			return
+		}
+		f, _ := m.Fn.(*ssa.Function)
+		if f == nil || len(f.Blocks) == 0 || len(r.Args) != len(f.FreeVars) || len(m.Bindings) != len(f.FreeVars) {
+			bad = true
+			return
+		}
+		var here []retCell
+		for i := range f.FreeVars {
+			if !privateCell(m.Bindings[i], m) || !an.ClosureOnlyLoads(f, i) {
+				bad = true
+				return
+			}
+			val := cs.Mem(r.Args[i])
+			if val == nil {
+				bad = true
+				return
+			}
+			c := retCell{res: -1, val: val}
+			if val.Op != "const" {
+				for j, ra := range ev.Args {
+					if j != idx && ra != nil && ra.K == val.K {
+						c.res = j
+						break
+					}
+				}
+			}
+			here = append(here, c)
+		}
+		if mc != nil {
+			for i := range here {
+				if here[i].res != cells[i].res || (here[i].res < 0 && here[i].val.K != cells[i].val.K) {
+					bad = true
+					return
+				}
+			}
+		}
+		mc, cells = m, here
+	})
+	if bad || !res.Complete || mc == nil {
+		return nil
+	}
+	return &retClosure{fn: mc.Fn.(*ssa.Function), cells: cells}
+}
+
+// privateCell: v is a local variable cell of the function that makes closure mc, and that function does nothing with
+// its address but store to it, load from it and capture it in mc.
+func privateCell(v ssa.Value, mc *ssa.MakeClosure) bool {
+	al, ok := v.(*ssa.Alloc)
+	if !ok || al.Parent() != mc.Parent() {
+		return false
+	}
+	refs := al.Referrers()
+	if refs == nil {
+		return false
+	}
+	for _, r := range *refs {
+		switch x := r.(type) {
+		case *ssa.DebugRef:
+		case *ssa.Store:
+			if x.Addr != ssa.Value(al) || x.Val == ssa.Value(al) {
+				return false
+			}
+		case *ssa.UnOp:
+			if x.Op != token.MUL {
+				return false
+			}
+		case *ssa.MakeClosure:
+			if x != mc {
+				return false
+			}
+		default:
+			return false
+		}
+	}
+	return true
 }
 
 func deferredClosureCalls(s *an.PathState, ev an.Event) (must []an.Event, decided bool) {
-	cf, fv, ok := deferredBody(s, ev)
+	cf, fv, snap, ok := deferredBody(s, ev)
 	if !ok {
 		return nil, false
 	}
-	snap := ev.AtExit
 	if snap == nil {
 		snap = map[string]*an.Term{}
 	}
@@ -198,7 +394,7 @@ func expandedEvents(s *an.PathState) []an.Event {
 	var out []an.Event
 	for _, e := range s.Events {
 		if e.Kind == "call" && e.Deferred {
-			if _, _, isBody := deferredBody(s, e); isBody {
+			if _, _, _, isBody := deferredBody(s, e); isBody {
 				if must, ok := deferredClosureCalls(s, e); ok {
 					out = append(out, must...)
 					continue
